@@ -56,17 +56,23 @@ Definition tree_agrees (a b : files) : bool :=
   && forallb (fun e => opt_eqb content_eqb (get (fst e) a) (get (fst e) b)) b.
 
 Definition compose_case :=
-  (str * str * files * list (list (str * (ometa * files))) * list (str * str * option str) * obs)%type.
+  (str * str * files * list (list (str * (ometa * files))) * list (str * str * option str) * (obs * obs))%type.
 
-Definition check_compose (c : compose_case) : bool :=
-  let '(id, sha_hex, up, scopes, tab, o) := c in
-  match compose (ap_of tab) up (map (layer_of sha_hex id) scopes), o with
+Definition obs_agrees (r : res files) (o : obs) : bool :=
+  match r, o with
   | Ok out, OOk t => tree_agrees out t
   | Err e, OErr code => err_code e =? code
   | _, _ => false
   end.
 
-(* diagnostics: what the model answers (used by the harness when a case disagrees) *)
+(* two observations of one world: the files `deploy --apply` wrote for the skill module (CLI, end to
+   end) and the tree overlay::compose_module_tree left in its out dir (library level, every file) *)
+Definition check_compose (c : compose_case) : bool :=
+  let '(id, sha_hex, up, scopes, tab, (o_cli, o_lib)) := c in
+  let r := compose (ap_of tab) up (map (layer_of sha_hex id) scopes) in
+  obs_agrees r o_cli && obs_agrees r o_lib.
+
+(* diagnostics: what the model answers (used when a case disagrees) *)
 Definition model_compose (c : compose_case) : res files :=
-  let '(id, sha_hex, up, scopes, tab, o) := c in
+  let '(id, sha_hex, up, scopes, tab, _) := c in
   compose (ap_of tab) up (map (layer_of sha_hex id) scopes).
